@@ -189,8 +189,10 @@ func init() {
 				switch {
 				case cfg.candidates == 2 && cfg.rounds == 1:
 					p.Bounds = []int{0, 1, 2, 3, 64} // 64 = effectively unbounded
-				case c.Tier == "thorough" || cfg.engine == hx.Mem:
-					p.Bounds = []int{0, 1, 2, 3, 64}
+				case c.Tier == "thorough":
+					p.Bounds = []int{0, 1, 2, 3, 4, 5, 6}
+				case cfg.engine == hx.Mem:
+					p.Bounds = []int{0, 1, 2, 3, 4}
 				default:
 					p.Bounds = []int{0, 1, 2}
 				}
